@@ -248,7 +248,8 @@ static htp_status_t htp_connp_req_buffer(htp_connp_t *connp) {
 static htp_status_t htp_connp_req_consolidate_data(htp_connp_t *connp, unsigned char **data, size_t *len) {
     if (connp->in_buf == NULL) {
         // We do not have any data buffered; point to the current data chunk.
-        *data = connp->in_current_data + connp->in_current_consume_offset;
+        // The final, zero-length call made on stream closure carries no data pointer.
+        *data = (connp->in_current_data != NULL) ? connp->in_current_data + connp->in_current_consume_offset : NULL;
         *len = connp->in_current_read_offset - connp->in_current_consume_offset;
     } else {
         // We already have some data in the buffer. Add the data from the current
